@@ -619,6 +619,11 @@ IdleStep(m0, e) ==
       listed == {o.dir[k][1] : k \in 1..Len(o.dir)}
   IN
   IF e.res # "ok" THEN IF m.faulted THEN m ELSE Viol(m, "C14", "worker_dead_or_stuck", e, [res |-> e.res])
+  ELSE IF ~m.faulted /\ \E k \in 1..Len(o.dir) :
+                          LET j == FileIdx(m, o.dir[k][1]) IN j # 0 /\ m.files[j].linked /\ m.files[j].w # o.dir[k][2]
+  THEN \* the directory holds bytes the interposed calls do not account for: the code reached the disk by a path
+       \* the shim does not see.  Not a verdict on the code: stop judging (the check reports a tool error).
+       [Note(m, "unobserved_fs_path", e) EXCEPT !.tainted = TRUE]
   ELSE
   LET \* C04: exactly once when no I/O error occurs
       m1 == IF ~m.faulted /\ waiting # {}
